@@ -154,6 +154,16 @@ impl Monitor for C14 {
                 if post_o.trade_enable_timestamp > ev.clock.unix_timestamp.max(0) as u64 && post_o.c != pre_o.c {
                     cov.probe("constants_changed_before_the_trade_enable_time");
                 }
+                // the constants a pool is charged by always satisfy the published validity rules (periods ordered, factors below
+                // their denominators, group size dividing the tick spacing, accumulator x group size within 32 bits)
+                if post_o.c != pre_o.c {
+                    if let Some(sp) = ev.post.data(&post_o.whirlpool).and_then(decode::pool).map(|p| p.tick_spacing) {
+                        if !crate::mon::c19::constants_valid(&post_o.c, sp) {
+                            out.push(viol("invalid_constants_installed", ev.idx, format!("after {} the oracle {} of a pool with tick spacing {} carries constants outside the validity rules: {:?}", ev.tag, m.pubkey, sp, post_o.c)));
+                            return out;
+                        }
+                    }
+                }
                 if post_o.v.volatility_accumulator > post_o.c.max_volatility_accumulator {
                     out.push(viol("stored_accumulator_above_maximum", ev.idx, format!("after {} the oracle {} stores volatility accumulator {} but the configured maximum is {}", ev.tag, m.pubkey, post_o.v.volatility_accumulator, post_o.c.max_volatility_accumulator)));
                     return out;
